@@ -408,7 +408,7 @@ class DyadCarrier(object):
     def contract_multi(self, mats: List[spmatrix], dtype=None):
         """ Faster version of contraction for a list of sparse matrices """
         if dtype is None:
-            dtype = np.result_type(self.dtype, *[m.dtype for m in mats])
+            dtype = np.result_type(self.dtype, *[m.dtype for m in mats if m is not None])
         val = np.zeros(len(mats), dtype=dtype)
 
         if len(self.u) == 0 or len(self.v) == 0:
